@@ -1,11 +1,89 @@
-/- Driver ops for C05. -/
+/- Driver ops for C05 (non-negative least-squares reconstruction).  Exact `Rat` arithmetic throughout;
+   the linear solver parameter of the model is instantiated with `Model.checkedSolve`. -/
 import Driver.Loop
+import Model.NNLS
 
 open Lean Model
 
 namespace Driver.C05
 
-def ops : List (String × Op) := []
+def rsolve : List (List Rat) → List Rat → Option (List Rat) := checkedSolve
+
+def errName : Impl.Err → String
+  | .singular => "singular"
+  | .runtime => "runtime"
+  | .fuel => "fuel"
+  | .degenerate => "degenerate"
+  | .empty => "empty"
+
+def exitName : Impl.Exit → String
+  | .main => "main"
+  | .noUpdate => "no_update"
+
+/-- `{"op":"c05.solve","A":[[..]],"b":[..]}` → x with A x = b, or err singular -/
+def solveOp : Op := fun j => do
+  let A ← getRatMat (← field j "A")
+  let b ← getRats (← field j "b")
+  match rsolve A b with
+  | none => throw "singular"
+  | some x => pure (ratsToJson x)
+
+def getPInit (j : Json) : Except String (Option (List Nat)) :=
+  match fieldD j "p_init" Json.null with
+  | .null => pure none
+  | v => do pure (some (← getNats v))
+
+/-- `fnnls_cholesky(ZTZ, ZTx, P_initial)`; `tol` = 2.2204e-16·n, `max_iter` = 10000 -/
+def fnnlsOp : Op := fun j => do
+  let A ← getRatMat (← field j "A")
+  let b ← getRats (← field j "b")
+  let tol ← getRat (← field j "tol")
+  let maxIter ← getNat (fieldD j "max_iter" (natToJson 10000))
+  let p ← getPInit j
+  match Impl.fnnls rsolve A b tol maxIter p with
+  | .err e => throw (errName e)
+  | .ok d ex lc lc2 =>
+    pure (obj [("d", ratsToJson d), ("exit", Json.str (exitName ex)), ("loop_count", natToJson lc),
+      ("loop_count2", natToJson lc2), ("kkt", Json.bool (Spec.isKKTb A b d tol)),
+      ("kkt0", Json.bool (Spec.isKKTb A b d 0))])
+
+def getRange (j : Json) : Except String (Nat × Nat) := do
+  match ← getNats j with
+  | [a, b] => pure (a, b)
+  | _ => throw "bad range"
+
+/-- AbstractInversion.reconstruction on a given system with the given settings -/
+def reconstructionOp : Op := fun j => do
+  let A ← getRatMat (← field j "A")
+  let b ← getRats (← field j "b")
+  let eps ← getRat (← field j "eps")
+  let atol ← getRat (fieldD j "atol" (Json.str "1/100000000"))
+  let rtol ← getRat (fieldD j "rtol" (Json.str "1/100000"))
+  let maxIter ← getNat (fieldD j "max_iter" (natToJson 10000))
+  let usePos ← getBool (← field j "use_positive_only_solver")
+  let usePInit ← getBool (← field j "positive_only_uses_p_initial")
+  let forceEdge ← getBool (← field j "force_edge_pixels_to_zeros")
+  let forceEdgeImage ← getBool (fieldD j "force_edge_image_pixels_to_zeros" (Json.bool false))
+  let check ← getBool (fieldD j "check_reconstruction" (Json.bool true))
+  let edge ← getNats (fieldD j "edge" (Json.arr #[]))
+  let zero ← getNats (fieldD j "zero" (Json.arr #[]))
+  let ranges ← getList getRange (fieldD j "mapper_ranges" (Json.arr #[]))
+  match Impl.reconstruction rsolve eps atol rtol maxIter usePos usePInit forceEdge forceEdgeImage check
+      edge zero ranges A b with
+  | .error e => throw (errName e)
+  | .ok s => pure (ratsToJson s)
+
+/-- per-object mapped data and their sum: `{"Bs":[B_obj…], "s":[…], "m": rows}` -/
+def mappedDataOp : Op := fun j => do
+  let Bs ← getList getRatMat (← field j "Bs")
+  let s ← getRats (← field j "s")
+  let m ← getNat (← field j "m")
+  let imgs := Impl.mappedDataDict Bs s
+  pure (obj [("dict", listToJson ratsToJson imgs), ("total", ratsToJson (Impl.mappedData m imgs))])
+
+def ops : List (String × Op) :=
+  [("c05.solve", solveOp), ("c05.fnnls", fnnlsOp), ("c05.reconstruction", reconstructionOp),
+   ("c05.mapped_data", mappedDataOp)]
 
 end Driver.C05
 
